@@ -84,9 +84,11 @@ CLAIMS = {
              "limit; constants are Bitcoin's; placeholder sizes match what is produced; max_weight_to_satisfy of every "
              "non-taproot descriptor type equals the BIP-141 weight of the standard assembly on grids crossing every "
              "push-size and compact-size breakpoint; script_size of every fragment equals the encoder's template length "
-             "(rule shared with C04).",
+             "(rule shared with C04); and measured on ~60 whole scripts: the figures computed by evaluating parser + type "
+             "checker bound every witness the evaluated satisfier produces (every key subset x preimage set x both modes) "
+             "in element count and bytes, and script_size / pk_cost equal the script's byte length.",
         note="Trusted: spec/satisfaction.py, spec/script.py, spec/limits.py; rustc THIR. Executed-opcode and exec-stack "
-             "depth figures, and measured witnesses, are not decided.",
+             "depth figures are not decided against an execution.",
         tech=STATIC + "symbolic extraction of accounting rules as max-plus / linear forms, domination check against template images",
         engine="symx"),
     "C12": dict(
